@@ -570,25 +570,31 @@ def to_shutdown_acts(obs):
             ph[th] = 'join'
         elif kind == 'th.join' and e[2].startswith('txthread'):
             dstep(th, 'd5', 'd6')
+            ph[th] = 'txjoined'
         elif kind == 'th.join' and e[2].startswith('rxthread'):
             dstep(th, 'd8', 'd9')
+            ph[th] = 'rxjoined'
+        elif kind == 'a.get' and e[2] == '_txthread' and ph.get(th) == 'txjoined':
+            # `if self._txthread is txthread: self._txthread = None` — in the model (no connect()) the attribute is clear afterwards
+            dstep(th, 'd6', 'd7')
+            ph[th] = 'join'
         elif kind == 'a.set' and e[2] == '_txthread' and e[3] is None:
             if is_tx and ph.get(th) is None:
                 if tx_proc[0]:
                     acts.append({'a': ['tx', False], 'pc': 'check'})
                     tx_proc[0] = False
                 acts.append({'a': ['tx', False], 'pc': 'd0'})
-            else:
-                dstep(th, 'd6', 'd7')
         elif kind == 'a.get' and e[2] == '_rxthread' and ph.get(th) == 'join':
             dstep(th, 'd7', 'd10' if e[3] is None else 'd8')
-            ph[th] = 'rxjoin'      # (later reads of _rxthread / io are the identity tests before the attributes are cleared)
+            ph[th] = 'ioguard' if e[3] is None else 'rxwait'     # rxwait: the next read of io is `newio = self.io`
+        elif kind == 'a.get' and e[2] == '_rxthread' and ph.get(th) == 'rxjoined':
+            dstep(th, 'd9', 'd10')
+            ph[th] = 'ioguard'
         elif kind == 'a.set' and e[2] == '_rxthread' and e[3] is None:
             if is_rx and ph.get(th) is None:
                 acts.append({'a': ['rx', False], 'pc': 'd0'})
-            else:
-                dstep(th, 'd9', 'd10')
-        elif kind == 'a.set' and e[2] == 'io' and e[3] is None and ph.get(th) in ('join', 'rxjoin'):
+        elif kind == 'a.get' and e[2] == 'io' and ph.get(th) == 'ioguard':
+            # `if self.io is io: self.io = None`
             dstep(th, 'd10', 'd11')
             ph[th] = 'final'
         elif kind == 'a.get' and e[2] == '_running':
@@ -685,6 +691,28 @@ def catalogue():
         {'name': 'user disconnect and peer drop at once, attribute-level yield points',
          'callers': [rp, rq], 'closer': {'delay': 0}, 'fine': True,
          'peer': {'rules': [{'on': 'read m:p', 'emit': [[0, reply_line(rp, 101)]], 'drop': 0.0}]}},
+        # ---- the time-out path with equal keys
+        {'name': 'two requests with the same key, the filed one is never answered: both run into their time-out',
+         'callers': [rp, rp],
+         'peer': {'rules': [{'on': 'read m:p', 'nth': 1, 'emit': [[0, reply_line(rp, 102)]]}]}},
+        {'name': 'late reply of a timed-out request racing its clean-up and a new request with the same key',
+         'callers': [rp, dict(rp, delay=10.5)], 'quiet_until': 10.4,
+         'peer': {'rules': [{'on': 'read m:p', 'nth': 0, 'emit': [[10.5, reply_line(rp, 101)]]},
+                            {'on': 'read m:p', 'nth': 1, 'emit': [[0, reply_line(rp, 102)]]}]}},
+        # ---- the reconnect thread (activated client), the node accepts connections again
+        {'name': 'activated client, peer drop after the reply: the final user shutdown races the reconnect thread',
+         'callers': [rp], 'activate': True,
+         'peer': {'reconnect': 'accept', 'rules': [{'on': 'read m:p', 'emit': [[0, reply_line(rp, 101)]], 'drop': 0.0}]}},
+        {'name': 'the same with attribute-level yield points',
+         'callers': [rp], 'activate': True, 'fine': True,
+         'peer': {'reconnect': 'accept', 'rules': [{'on': 'read m:p', 'emit': [[0, reply_line(rp, 101)]], 'drop': 0.0}]}},
+        {'name': 'activated client, peer drop, user disconnect and a request at once; what is left when all is at rest',
+         'callers': [rp], 'activate': True, 'closer': {'delay': 0}, 'settle': 25,
+         'peer': {'reconnect': 'accept', 'rules': [{'on': 'read m:p', 'emit': [[0, reply_line(rp, 101)]], 'drop': 0.0}]}},
+        {'name': 'activated client, a request after the peer drop (reconnect by the caller or by the reconnect thread)',
+         'callers': [rp, dict(rq, delay=0.3)], 'activate': True,
+         'peer': {'reconnect': 'accept', 'rules': [{'on': 'read m:p', 'emit': [[0, reply_line(rp, 101)]], 'drop': 0.0},
+                                                   {'on': 'read m:q', 'emit': [[0, reply_line(rq, 102)]]}]}},
     ]
 
 
@@ -751,8 +779,15 @@ def gen_case(rng, big):
     case = {'callers': callers, 'peer': peer}
     if rng.random() < 0.35:
         case['closer'] = {'delay': rng.choice([0, 0, 0.1, 0.7, 10.2])}
-    if rng.random() < 0.15:
+    if rng.random() < 0.25:
         case['activate'] = True
+        r = rng.random()
+        if r < 0.5:
+            peer['reconnect'] = 'accept'       # the node is back at once
+            if r < 0.15:
+                peer['refuse_first'] = 1       # ... after one refused attempt
+    if case.get('closer') is not None and rng.random() < 0.3:
+        case['settle'] = 25
     if rng.random() < 0.25:
         case['fine'] = True
     return case
@@ -908,6 +943,121 @@ def effective_schedule(obs):
     return [c[1] for c in obs['choices']]
 
 
+# ----------------------------------------------------------------------------------------
+# the connection object: real AsynTcp on loopback sockets, the scripted FakeConn, the client end to end on real sockets
+# ----------------------------------------------------------------------------------------
+CONN_CATALOGUE = [
+    ['peerFin', 'readline', 'shutdown', 'disconnect'],
+    ['peerRst:linger', 'readline', 'shutdown', 'disconnect'],
+    ['peerRst:linger', 'shutdown', 'readline', 'send', 'disconnect'],
+    ['peerRst:unread', 'readline', 'shutdown', 'send'],
+    ['peerSend', 'peerRst:linger', 'readline', 'readline', 'shutdown'],
+    ['peerSend', 'peerFin', 'readline', 'readline', 'send', 'send', 'shutdown'],
+    ['readline', 'shutdown', 'readline', 'send', 'shutdown', 'disconnect', 'shutdown', 'disconnect', 'readline', 'send'],
+    ['peerSend', 'shutdown', 'readline', 'readline'],
+    ['peerRst:linger', 'send', 'send', 'shutdown'],
+    ['peerFin', 'send', 'send', 'readline'],
+    ['peerRst:linger', 'disconnect'],
+    ['peerFin', 'shutdown', 'shutdown'],
+    ['peerSend', 'peerSend', 'readline', 'peerRst:unread', 'readline', 'readline', 'shutdown', 'disconnect'],
+]
+CONN_STEPS = (['peerSend'] * 2 + ['peerFin', 'peerRst:linger', 'peerRst:unread'] + ['readline'] * 4 + ['send'] * 2
+              + ['shutdown'] * 2 + ['disconnect'])
+E2E_KINDS = ['fin', 'rst', 'unread', 'user']
+E2E_BOUND_MS = 3000
+
+
+def gen_conn_script(rng):
+    return [rng.choice(CONN_STEPS) for _ in range(rng.randint(3, 8))]
+
+
+def run_conn(impl, script):
+    from vlib import loopback
+    return loopback.run_conn_script(script) if impl == 'tcp' else loopback.run_fake_script(script)
+
+
+def conn_sig(events, k):
+    e = events[k]
+    return 'C11:conn:' + ':'.join([e[1]] + [str(x) for x in e[2]])
+
+
+def conn_stream(ctx, res):
+    scripts = [list(x) for x in CONN_CATALOGUE] + [gen_conn_script(ctx.rng) for _ in range(ctx.budget(40, 500))]
+    nfake = len(CONN_CATALOGUE) + ctx.budget(25, 300)
+    cases = [('tcp', sc) for sc in scripts] + [('fake', sc) for sc in scripts[:nfake]]
+    runs = [(impl, sc, run_conn(impl, sc)) for impl, sc in cases]
+    answers = ctx.driver.batch([{'p': 'C11', 'k': 'conn', 'events': ev} for _, _, ev in runs])
+    seen = set()
+    for (impl, sc, ev), a in zip(runs, answers):
+        if 'driver_error' in a:
+            raise RuntimeError(f'driver error: {a}')
+        res.evaluations += 1
+        res.traces += 1
+        res.count('conn-' + impl)
+        for e in ev:
+            if e[0] == 'call':
+                res.count('conn.%s=%s' % (e[1], e[2][0]))
+        if any(e[0] in ('peerFin', 'peerRst') for e in ev) and any(e[0] == 'call' for e in ev):
+            res.nontriv(['conn', impl, ev])
+        if a['refused_at'] is not None and ctx.model_ok:
+            res.disagreements.append({'model': f'connection model does not allow event {a["refused_at"]}: {ev[a["refused_at"]]}',
+                                      'impl': {'impl': impl, 'events': ev}, 'case': {'conn_script': sc, 'impl': impl}})
+        if a['first_bad'] is not None:
+            k = a['first_bad']
+            if impl == 'fake':     # the stand-in itself is wrong: a harness defect, never a finding about frappy
+                res.disagreements.append({'model': f'FakeConn breaks the connection contract at event {k}: {ev[k]}',
+                                          'impl': {'impl': impl, 'events': ev}, 'case': {'conn_script': sc, 'impl': impl}})
+                continue
+            sig = conn_sig(ev, k)
+            if sig in seen:
+                continue
+            seen.add(sig)
+
+            def fails(cand):
+                ev2 = run_conn(impl, cand)
+                a2 = ctx.driver.batch([{'p': 'C11', 'k': 'conn', 'events': ev2}])[0]
+                return a2['first_bad'] is not None and conn_sig(ev2, a2['first_bad']) == sig
+            small = ddmin(sc, fails, max_tests=40)
+            ev3 = run_conn(impl, small)
+            res.violations.append({'sig': sig, 'what': f'AsynTcp on a loopback socket, script {small}: observed {ev3} - '
+                                   f'the call {ev[k][1]}() ended with {ev[k][2]}, which the client does not expect there',
+                                   'case': {'conn_script': small, 'impl': impl}})
+    # ---- the client on real sockets
+    from vlib import loopback
+    for kind in E2E_KINDS * ctx.budget(1, 3):
+        obs = loopback.run_client_drop(kind)
+        a = ctx.driver.batch([e2e_request(obs)])[0]
+        if 'driver_error' in a:
+            raise RuntimeError(f'driver error: {a}')
+        res.evaluations += 1
+        res.traces += 1
+        res.count('e2e-%s=%s' % (kind, obs['out']))
+        res.nontriv(['e2e', kind, obs['out']])
+        for sig, what in e2e_assess(obs, a):
+            if sig not in seen:
+                seen.add(sig)
+                res.violations.append({'sig': sig, 'what': what, 'case': {'e2e': kind}})
+
+
+def e2e_request(obs):
+    return {'p': 'C11', 'k': 'release', 'out': obs['out'], 'seq': 0, 'elapsedMs': obs['elapsedMs'], 'boundMs': E2E_BOUND_MS,
+            'threadErrors': obs['threadErrors'], 'disconnectRaised': obs['disconnectRaised'], 'alive': obs['alive'],
+            'unterminated': obs['unterminated']}
+
+
+def e2e_assess(obs, a):
+    out = []
+    kind = obs['drop']
+    if not a['released_promptly']:
+        out.append((f'C11:e2e:{kind}:not-released:{obs["out"]}',
+                    f'real sockets, connection lost by "{kind}" while a request was pending: the caller ended with '
+                    f'{obs["out"]} after {obs["elapsedMs"]} ms (expected: a connection error within {E2E_BOUND_MS} ms)'))
+    if not a['shutdown_clean']:
+        out.append((f'C11:e2e:{kind}:shutdown', f'real sockets, connection lost by "{kind}": thread errors {obs["threadErrors"]}, '
+                    f'disconnect() raised {obs["disconnectRaised"]}, threads left {obs["alive"]}'))
+    return out
+
+
 META = {
     'level_text': 'Three models of the repaired SecopClient, theorems for all reachable states (any number of callers, requests, '
                   'lines, any interleaving, disconnects at any point).  (1) matching LTS, one action per shared access of caller, '
@@ -1015,8 +1165,9 @@ def run(ctx):
             c = json.load(open(os.path.join(cdir, fn)))
             do(c['case'], vsched.ReplayThenDefault(c['schedule']))
     # ---------- the catalogue, systematically ----------
-    per_case = ctx.budget(260, 3000)
+    per_case = ctx.budget(180, 2500)
     for case in catalogue():
+        res.count('catalogue-scenarios')
         case = {k: v for k, v in case.items() if k != 'name'}
         for prefix, obs in explore_case(case, maxpre, per_case, rng):
             runs.append((case, effective_schedule(obs), obs))
@@ -1032,11 +1183,29 @@ def run(ctx):
         for _ in range(ctx.budget(6, 16)):
             do(case, vsched.RandomPolicy(rng, rng.choice([0.1, 0.3, 0.5])))
     flush()
+    conn_stream(ctx, res)
     return res
 
 
 def replay(ctx, rp):
     c = rp['case']
+    if 'conn_script' in c:
+        ev = run_conn(c['impl'], c['conn_script'])
+        a = ctx.driver.batch([{'p': 'C11', 'k': 'conn', 'events': ev}])[0]
+        print('script  :', c['conn_script'], 'on', c['impl'])
+        print('observed:', ev)
+        print('model   : refuses event', a['refused_at'], '| contract broken at event', a['first_bad'])
+        return 1 if a['first_bad'] is not None or a['refused_at'] is not None else 0
+    if 'e2e' in c:
+        from vlib import loopback
+        obs = loopback.run_client_drop(c['e2e'])
+        a = ctx.driver.batch([e2e_request(obs)])[0]
+        print('observed:', obs)
+        print('judge   :', a)
+        found = e2e_assess(obs, a)
+        for sig, what in found:
+            print('fails   :', sig, '-', what)
+        return 1 if found else 0
     case, schedule = c['case'], c['schedule']
     _, obs = run_case(case, vsched.ReplayThenDefault(schedule))
     r = requests_for(case, obs, schedule)
